@@ -2,10 +2,12 @@
 C07 — Nitrogen pools stay non-negative and organic/fertiliser bookkeeping is exact.
 Models: HermesModel/Mineral.lean (`mineral` nitro.go:576-705, tillage mixing nitro.go:245-288,
 denitrification removal), HermesModel/Nitro.lean (`nmove`: uptake and fixation crediting,
-nitro.go:730-744, 849-852).  Exact-arithmetic statements over ℚ.
+nitro.go:730-744, 849-852), HermesModel/FertPool.lean (fertiliser applied / dissolved over a run:
+applications, `mineral` calls, measurement days).  Exact-arithmetic statements over ℚ.
 -/
 import HermesProofs.Nitro
 import HermesProofs.Mineral
+import HermesProofs.FertPool
 namespace Hermes.Mineral
 open Hermes.Nitro
 
@@ -44,27 +46,81 @@ theorem C07_pools_nonneg (top : Bool) (dsumm nh4sum wred : ℚ) (L : Layer ℚ) 
 
 example : (0 : ℚ) ≤ (1 / 100) ∧ (1 / 100 : ℚ) ≤ 1 := by norm_num
 
-/-- **Dissolved fertiliser never exceeds fertiliser applied** (soil warmer than 0 °C, where the
-moisture factor is clamped to [0,1]): the invariants UMS ≤ DSUMM and NH4UMS ≤ NH4Sum are preserved.
-In the frozen branch the factor has no upper clamp (nitro.go:657-670); there the statement needs
-0.4·MIRED ≤ 1, which the search stage checks on the implementation. -/
-theorem C07_dissolved_le_applied_partial (top : Bool) (dsumm nh4sum wred : ℚ) (L : Layer ℚ) (a : Acc ℚ)
-    (hwarm : 0 < (L.tdLo + L.tdUp) / 2) (h1 : a.ums ≤ dsumm) (h2 : a.nh4ums ≤ nh4sum) :
+/-- **Dissolved fertiliser never exceeds fertiliser applied — one layer, every temperature.** Both
+invariants UMS ≤ DSUMM and NH4UMS ≤ NH4Sum are preserved by the step of `mineral` in any layer, in
+the warm branch (moisture factor clamped to [0,1]) and in the frozen branch (mean layer temperature
+≤ 0, nitro.go:661-691), and neither counter decreases. The frozen branch has no upper clamp and no
+`WG > WMIN` test on its `WG < WRED` formula; what it needs instead is `FrozenOrd`: *if* the top layer
+is frozen and drier than WRED, its wilting point lies below WRED — which is what `calcWRed` produces
+(WRED = WMIN + 0.6…0.66·(W − WMIN) with WMIN < W, C15). Without it the statement is false
+(`C07_dissolved_frozen_order_sharp`). -/
+theorem C07_dissolved_le_applied (top : Bool) (dsumm nh4sum wred : ℚ) (L : Layer ℚ) (a : Acc ℚ)
+    (hord : top = true → FrozenOrd wred L) (h1 : a.ums ≤ dsumm) (h2 : a.nh4ums ≤ nh4sum) :
     (layer top dsumm nh4sum wred L a).2.ums ≤ dsumm ∧ a.ums ≤ (layer top dsumm nh4sum wred L a).2.ums ∧
-    (layer top dsumm nh4sum wred L a).2.nh4ums ≤ nh4sum := by
-  unfold layer
-  simp only [hwarm, if_true]
-  obtain ⟨m0, m1⟩ := miredWarm_unit L.wg L.wnor wred L.wmin L.porges
-  generalize miredWarm L.wg L.wnor wred L.wmin L.porges = m at m0 m1
-  cases top
-  · simp; exact ⟨h1, h2⟩
-  · simp only [if_true]
-    have e1 : (0.4 : ℚ) * m * (dsumm - a.ums) ≤ dsumm - a.ums := by nlinarith
-    have e2 : (0 : ℚ) ≤ 0.4 * m * (dsumm - a.ums) := by
-      have : (0 : ℚ) ≤ 0.4 * m := by positivity
-      exact mul_nonneg this (by linarith)
-    have e3 : (0.4 : ℚ) * m * (nh4sum - a.nh4ums) ≤ nh4sum - a.nh4ums := by nlinarith
-    refine ⟨by linarith, by linarith, by linarith⟩
+    (layer top dsumm nh4sum wred L a).2.nh4ums ≤ nh4sum ∧ a.nh4ums ≤ (layer top dsumm nh4sum wred L a).2.nh4ums :=
+  layer_dissolved top dsumm nh4sum wred L a hord h1 h2
+
+/-- The frozen branch alone, with the plain ordering hypothesis WMIN < WRED. -/
+theorem C07_dissolved_le_applied_frozen (dsumm nh4sum wred : ℚ) (L : Layer ℚ) (a : Acc ℚ)
+    (hfrozen : (L.tdLo + L.tdUp) / 2 ≤ 0) (hord : L.wmin < wred) (h1 : a.ums ≤ dsumm) (h2 : a.nh4ums ≤ nh4sum) :
+    (layer true dsumm nh4sum wred L a).2.ums ≤ dsumm ∧ (layer true dsumm nh4sum wred L a).2.nh4ums ≤ nh4sum ∧
+    (layer true dsumm nh4sum wred L a).1.dums = 0.4 * miredCold L.wg L.w wred L.wmin L.porges * (dsumm - a.ums) ∧
+    miredCold L.wg L.w wred L.wmin L.porges ≤ 1 := by
+  obtain ⟨a1, _, a3, _⟩ := layer_dissolved true dsumm nh4sum wred L a (fun _ _ _ => hord) h1 h2
+  refine ⟨a1, a3, ?_, (miredCold_unit L.wg L.w wred L.wmin L.porges (fun _ => hord)).2⟩
+  have : ¬ 0 < (L.tdLo + L.tdUp) / 2 := not_lt.mpr hfrozen
+  simp [layer, this]
+
+/-- **… through one call of `mineral`** (`Mineral.run`: the loop over the mineralisation layers, any
+number of layers, every temperature profile). -/
+theorem C07_dissolved_le_applied_mineral (dsumm nh4sum wred : ℚ) (ls : List (Layer ℚ)) (a : Acc ℚ)
+    (hord : ∀ L ∈ ls.head?, FrozenOrd wred L) (h1 : a.ums ≤ dsumm) (h2 : a.nh4ums ≤ nh4sum) :
+    (run dsumm nh4sum wred ls a).2.ums ≤ dsumm ∧ a.ums ≤ (run dsumm nh4sum wred ls a).2.ums ∧
+    (run dsumm nh4sum wred ls a).2.nh4ums ≤ nh4sum ∧ a.nh4ums ≤ (run dsumm nh4sum wred ls a).2.nh4ums :=
+  go_dissolved dsumm nh4sum wred ls true a (fun _ => hord) h1 h2
+
+/-- **… as an invariant of the run**: over any sequence of fertiliser applications (non-negative
+amounts added to DSUMM / NH4Sum), calls of `mineral` (any layers, any temperatures, `FrozenOrd` for the
+top layer) and measurement days (DSUMM and UMS reset to 0), starting from a state with
+UMS ≤ DSUMM and NH4UMS ≤ NH4Sum (the initial state has all four at 0), both inequalities hold at
+the end — hence after every event. -/
+theorem C07_dissolved_le_applied_invariant (evs : List (FertPool.Ev ℚ)) (p : FertPool.Pool ℚ)
+    (hok : ∀ e ∈ evs, FertPool.EvOk e) (h : FertPool.Inv p) :
+    FertPool.Inv (FertPool.runEvs p evs) ∧ ∀ q ∈ FertPool.trace p evs, FertPool.Inv q :=
+  ⟨FertPool.runEvs_inv evs p hok h, FertPool.trace_inv evs p hok h⟩
+
+/-- The ordering hypothesis of the frozen branch cannot be dropped: with WRED = 0.19 below the
+wilting point 0.20 and a frozen, dry top layer the factor is 20, `mineral` dissolves eight times
+what was applied. (No run produces WRED ≤ WMIN[0]: `calcWRed` puts it 60-66 % of the way from the
+wilting point to field capacity; the check counts the days on which the hypothesis fails — none.) -/
+theorem C07_dissolved_frozen_order_sharp :
+    ∃ (L : Layer ℚ) (a : Acc ℚ) (dsumm wred : ℚ), a.ums ≤ dsumm ∧ ¬ FrozenOrd wred L ∧
+      dsumm < (layer true dsumm 0 wred L a).2.ums := by
+  refine ⟨⟨-1, -1, 0, 0, 0, 3 / 10, 1 / 5, 2 / 5, 3 / 10, 0, 0, 0, 0⟩, ⟨0, 0, 0, 0⟩, 100, 19 / 100, by norm_num, ?_, ?_⟩
+  · unfold FrozenOrd; norm_num
+  · norm_num [layer, miredCold]
+
+-- the hypotheses are satisfiable: a frozen, dry top layer with WMIN = 0.10 < WRED = 0.22, 30 of 100 kg dissolved
+example : FrozenOrd (22 / 100) (⟨-3, -1, 0, 0, 15 / 100, 3 / 10, 1 / 10, 2 / 5, 3 / 10, 0, 0, 0, 0⟩ : Layer ℚ) ∧
+    ((30 : ℚ) ≤ 100) := by
+  unfold FrozenOrd; norm_num
+
+/-- a year in the life of the four counters: dressing 80 (30 as ammonium), frozen day, warm day,
+measurement day, second dressing, warm day -/
+def fertYear : List (FertPool.Ev ℚ) :=
+  [.fert 80 30,
+   .mineral (22 / 100) [⟨-3, -1, 0, 0, 15 / 100, 3 / 10, 1 / 10, 2 / 5, 3 / 10, 900, 40, 0, 0⟩],
+   .mineral (22 / 100) [⟨8, 6, 1 / 1000, 1 / 100, 25 / 100, 3 / 10, 1 / 10, 2 / 5, 3 / 10, 900, 40, 0, 0⟩,
+                        ⟨6, 5, 1 / 1000, 1 / 100, 25 / 100, 3 / 10, 1 / 10, 2 / 5, 3 / 10, 700, 10, 0, 0⟩],
+   .measure, .fert 40 0,
+   .mineral (22 / 100) [⟨8, 6, 1 / 1000, 1 / 100, 25 / 100, 3 / 10, 1 / 10, 2 / 5, 3 / 10, 900, 40, 0, 0⟩]]
+
+example : (∀ e ∈ fertYear, FertPool.EvOk e) ∧ FertPool.Inv ⟨0, 0, ⟨0, 0, 0, 0⟩⟩ := by
+  refine ⟨?_, by unfold FertPool.Inv; norm_num⟩
+  intro e he
+  simp only [fertYear, List.mem_cons, List.mem_nil_iff, or_false] at he
+  rcases he with rfl | rfl | rfl | rfl | rfl | rfl <;>
+    simp [FertPool.EvOk, FrozenOrd] <;> norm_num
 
 /-- **Tillage mixing preserves the profile sums** of every pool for every mixing depth inside the
 profile (m ≤ number of layers of the pool arrays, also deeper than the four layers of the
